@@ -166,6 +166,11 @@ def fam_verdicts(ctx, rng, coarse=False):
                 fn_std=meta["fn_std"], ratio=meta["ratio"])
     v = int(rng.integers(0, 3))
     fa, ma, sa, lw_a, nw_a, fs_a = f, mean, std, meta["lw"], meta["nw"], meta["fn_std"]
+    if tuple(sr) == (None, None) and rng.random() < 0.3:
+        # a curve tabulated against period: the same samples listed from high to low frequency
+        fa, ma, sa = f[::-1].copy(), mean[::-1].copy(), std[::-1].copy()
+        f, mean, std = fa, ma, sa
+        ctx.count("curves_listed_with_descending_frequency")
     if rng.random() < 0.3:
         # the curves as a caller may hold them (strided / read-only / big-endian / Fortran-derived views of the same values),
         # the counts and lengths as other numeric types holding the same value
